@@ -8,7 +8,7 @@ git -C /repo worktree remove --force "$wt" 2>/dev/null
 git -C /repo worktree add --detach "$wt" HEAD >/dev/null 2>&1 || { echo "$id: worktree failed"; exit 3; }
 cd "$wt"
 demo=$(ls "$src" | grep -E '^(demo|test_demo).*\.py$' | head -1)
-rundemo() { if [[ "$demo" == test_* ]]; then /venv/bin/python -m pytest -q -p no:cacheprovider -x "$src/$demo" >/dev/null 2>&1; else /venv/bin/python "$src/$demo" >/dev/null 2>&1; fi; echo $?; }
+rundemo() { if [[ "$demo" == test_* ]]; then PYTHONPATH="$wt" /venv/bin/python -m pytest -q -p no:cacheprovider -x "$src/$demo" >/dev/null 2>&1; else PYTHONPATH="$wt" /venv/bin/python "$src/$demo" >/dev/null 2>&1; fi; echo $?; }
 clean_rc=$(rundemo)
 git apply "$src/patch.diff" || { echo "$id: patch does not apply"; git -C /repo worktree remove --force "$wt"; exit 3; }
 patched_rc=$(rundemo)
